@@ -16,6 +16,7 @@ type c05Obj struct {
 	parent int
 	props  [][2]string // name, kind (vN / f / m / x)
 	src    int         // bearv / brov: index of the object used as source
+	tag    int         // value of the public `tag` prop (0 = the object's index)
 }
 
 var c05Names = []string{"a", "b", "c", "d", "_p", "_missing"}
@@ -117,7 +118,19 @@ func genC05(c *Ctx) {
 			}
 			nobj = len(objs)
 		}
-		for i := 0; i < nobj && !family; i++ {
+		twins := it%4 == 1
+		if twins {
+			// objects that differ only in private props (or not at all): == / kindOf? / ancestors must tell them apart
+			pv := fmt.Sprintf("v%d", 5+c.Rng.Intn(2))
+			priv := c.Rng.Pick([]string{"_p", "_missing"})
+			objs = []c05Obj{
+				{kind: "lit", parent: -1, props: [][2]string{{"a", "v1"}, {priv, "v5"}}, tag: 50},
+				{kind: "lit", parent: -1, props: [][2]string{{"a", "v1"}, {priv, pv}}, tag: 50},
+				{kind: "bear", parent: 0}, {kind: "bear", parent: 1}, {kind: "bear", parent: 2},
+			}
+			nobj = len(objs)
+		}
+		for i := 0; i < nobj && !family && !twins; i++ {
 			o := c05Obj{kind: "lit", parent: -1}
 			if i > 0 {
 				switch c.Rng.Intn(5) {
@@ -161,8 +174,15 @@ func genC05(c *Ctx) {
 		var sb strings.Builder
 		defs := []string{}
 		for i, o := range objs {
-			ps := []string{fmt.Sprintf("tag: %d", i)}
+			tg := i
+			if o.tag != 0 {
+				tg = o.tag
+			}
+			ps := []string{fmt.Sprintf("tag: %d", tg)}
 			enc := []string{}
+			if o.tag != 0 {
+				enc = append(enc, fmt.Sprintf("tag=v%d", o.tag))
+			}
 			for _, p := range o.props {
 				ps = append(ps, c05PropSrc(i, p[0], p[1]))
 				enc = append(enc, p[0]+"="+p[1])
@@ -212,8 +232,18 @@ func genC05(c *Ctx) {
 				i = 2 + c.Rng.Intn(nobj-2)
 				name = c.Rng.Pick([]string{"a", "b", "c", "d", "zz", "tag"})
 			}
+			forceKind := twins && c.Rng.Intn(3) > 0
 			var probe, src string
-			switch c.Rng.Intn(9) {
+			sel := c.Rng.Intn(11)
+			if forceKind {
+				sel = 6
+			}
+			switch sel {
+			case 9:
+				// thoughtful call: the lookup (including _missing) is the same, only a nil / failed result falls back to the receiver
+				probe, src = fmt.Sprintf("tcall:%d:%s", i, name), fmt.Sprintf("o%d~.%s(9)", i, name)
+			case 10:
+				probe, src = fmt.Sprintf("call:%d:%s", i, name), fmt.Sprintf("o%d&.%s(9)", i, name)
 			case 0, 1:
 				probe, src = fmt.Sprintf("call:%d:%s", i, name), fmt.Sprintf("o%d.%s(9)", i, name)
 			case 2:
